@@ -154,7 +154,11 @@ func runHistory(rt *rapid.T, o *historyOpts) {
 			judge(rt, o, w, rec, vs)
 			for _, key := range o.classify(w, rec) {
 				o.col.Nontrivial(key)
-				o.col.Class("nontrivial:" + strings.SplitN(key, "|", 2)[0])
+				parts := strings.SplitN(key, "|", 3)
+				if len(parts) > 2 {
+					parts = parts[:2]
+				}
+				o.col.Class("nontrivial:" + strings.Join(parts, "|"))
 				if !nontrivialSeen {
 					nontrivialSeen = true
 					o.col.Sample(sampleOf(w, rec))
